@@ -28,12 +28,14 @@ Record st := {
   migrated : bool;
   accepted_validated : list key;
   last_rx : list Z;
+  vrem : list (key * list Z);      (* remotes of a connection that were validated with evidence *)
+  chg : list (key * (Z * Z));      (* remote in use and frame_rx.path_response when it came into use *)
 }.
 
 Definition step (s : st) (r : list Z) : option st :=
   if tag r =? 13 then
     Some {| led := led s; lastp := lastp s; migrated := migrated s || (fld r 2 =? 1);
-            accepted_validated := accepted_validated s; last_rx := last_rx s |}
+            accepted_validated := accepted_validated s; last_rx := last_rx s; vrem := vrem s; chg := chg s |}
   else if tag r =? 2 then
     let e := rep r in
     let src := fld r 3 in
@@ -56,28 +58,35 @@ Definition step (s : st) (r : list Z) : option st :=
                    accepted_validated :=
                      if (out =? 2) && (fld r 7 =? 1) then (e, idx) :: accepted_validated s
                      else accepted_validated s;
-                   last_rx := r |} in
+                   last_rx := r; vrem := vrem s; chg := chg s |} in
       Some s1
     else Some {| led := led s; lastp := lastp s; migrated := migrated s;
-                 accepted_validated := accepted_validated s; last_rx := r |}
+                 accepted_validated := accepted_validated s; last_rx := r; vrem := vrem s; chg := chg s |}
   else if tag r =? 8 then
-    (* validation of a server-side path needs evidence *)
+    (* validation of a server-side path needs evidence: a Handshake packet from that address, an
+       address validated at accept (token / Retry), the address having been validated before
+       (return to the previous path), or a PATH_RESPONSE received (frame_rx.path_response, field
+       57) since the address came into use *)
     let k := rkey r in
-    let ok :=
-      if (rep r =? 1) && (pf r 1 =? 1) then
-        match aget (lastp s) k with
-        | Some b =>
-            (pf b 1 =? 1)
-            || (let '(_, _, hs) := lget (led s) (rep r, ridx r, premote r) in hs)
-            || existsb (key_eqb k) (accepted_validated s)
-            || migrated s
-        | None =>
-            existsb (key_eqb k) (accepted_validated s)
-            || (let '(_, _, hs) := lget (led s) (rep r, ridx r, premote r) in hs)
-        end
-      else true in
+    let rem := premote r in
+    let '(crem, base) := match aget (chg s) k with Some v => v | None => (-1, 0) end in
+    let chg1 := if crem =? rem then chg s else aset (chg s) k (rem, fld r 57) in
+    let base1 := if crem =? rem then base else fld r 57 in
+    let known := match aget (vrem s) k with Some l => existsb (Z.eqb rem) l | None => false end in
+    let evidence :=
+      known
+      || (let '(_, _, hs) := lget (led s) (rep r, ridx r, rem) in hs)
+      || (existsb (key_eqb k) (accepted_validated s) && negb (existsb (fun x => true) (match aget (vrem s) k with Some l => l | None => [] end)) && (crem =? -1))
+      || (base1 <? fld r 57) in
+    let claims := (rep r =? 1) && (pf r 1 =? 1) in
+    let ok := negb claims || evidence in
+    let vrem1 :=
+      if claims && negb known then
+        aset (vrem s) k (rem :: match aget (vrem s) k with Some l => l | None => [] end)
+      else vrem s in
     if ok then Some {| led := led s; lastp := aset (lastp s) k r; migrated := migrated s;
-                       accepted_validated := accepted_validated s; last_rx := last_rx s |}
+                       accepted_validated := accepted_validated s; last_rx := last_rx s;
+                       vrem := vrem1; chg := chg1 |}
     else None
   else if (tag r =? 1) && (fld r 8 =? 0) then
     let k := rkey r in
@@ -95,10 +104,10 @@ Definition step (s : st) (r : list Z) : option st :=
         let ok := negb unvalidated || ((snt <? 3 * rcv) && (snt + size <? 3 * rcv + seg)) in
         if ok then Some {| led := lset (led s) lk (snt + size, rcv, hs); lastp := lastp s;
                            migrated := migrated s; accepted_validated := accepted_validated s;
-                           last_rx := last_rx s |}
+                           last_rx := last_rx s; vrem := vrem s; chg := chg s |}
         else None
     end
   else Some s.
 
 Definition monitor (i : ops) (o : outs) : option Z :=
-  snd (run_from step 0 {| led := []; lastp := []; migrated := false; accepted_validated := []; last_rx := [] |} o).
+  snd (run_from step 0 {| led := []; lastp := []; migrated := false; accepted_validated := []; last_rx := []; vrem := []; chg := [] |} o).
